@@ -4,15 +4,16 @@ set -u
 src=$1; shift
 name=$(basename $src)
 export GOFLAGS=-mod=mod GOPROXY=off GOSUMDB=off GOTOOLCHAIN=local
-wt=/tmp/benignchk_$name
+tag=$(basename $(dirname $src))_${name}_$$   # unique per set, round and process: concurrent runs never share a worktree
+wt=/tmp/benignchk_$tag
 git -C /repo worktree remove --force $wt 2>/dev/null
 git -C /repo worktree add --detach $wt HEAD >/dev/null 2>&1 || exit 2
 ( cd $wt && git apply $src/all.diff ) || { echo "benign=$name all.diff does not apply"; git -C /repo worktree remove --force $wt; exit 2; }
 suite=$(cd $wt && go build ./... 2>&1 | head -3; cd $wt && go test -vet=off -count=1 ./... 2>&1 | grep -c "^FAIL\|^--- FAIL")
 for prop in "$@"; do
-  VERIF_REPO=$wt /verif/bin/check $prop --tier quick > /tmp/benignchk_${name}_$prop.out 2>/tmp/benignchk_${name}_$prop.err; rc=$?
-  echo "benign=$name prop=$prop suite_failures=$suite check_rc=$rc violations=$(grep -c '^VIOLATION' /tmp/benignchk_${name}_$prop.out) drift=$(grep -c 'SPEC-DRIFT' /tmp/benignchk_${name}_$prop.err)"
-  grep '^VIOLATION' /tmp/benignchk_${name}_$prop.out | head -2 | cut -c1-300
-  grep 'NO-VERDICT' /tmp/benignchk_${name}_$prop.err | head -2 | cut -c1-300
+  VERIF_REPO=$wt /verif/bin/check $prop --tier quick > /tmp/benignchk_${tag}_$prop.out 2>/tmp/benignchk_${tag}_$prop.err; rc=$?
+  echo "benign=$name prop=$prop suite_failures=$suite check_rc=$rc violations=$(grep -c '^VIOLATION' /tmp/benignchk_${tag}_$prop.out) drift=$(grep -c 'SPEC-DRIFT' /tmp/benignchk_${tag}_$prop.err)"
+  grep '^VIOLATION' /tmp/benignchk_${tag}_$prop.out | head -2 | cut -c1-300
+  grep 'NO-VERDICT' /tmp/benignchk_${tag}_$prop.err | head -2 | cut -c1-300
 done
 git -C /repo worktree remove --force $wt
